@@ -27,7 +27,7 @@ sys.path.insert(0, os.path.join(lib.VERIF, "tools", "translators"))
 import locksets  # noqa: E402
 
 GENERATED = os.path.join(lib.LEAN_DIR, "Tulz", "Generated", "AccessTable.lean")
-TSAN_FLAGS = ["-std=c++20", "-O1", "-g", "-fsanitize=thread", "-fno-omit-frame-pointer"]
+TSAN_FLAGS = ["-std=c++20", "-O1", "-g", "-fsanitize=thread", "-fno-omit-frame-pointer", "-DNDEBUG"]   # asserts off, as in the library's own RelWithDebInfo build: a broken exclusion must show as the race it causes, not as an abort
 TSAN_ENV = {"TSAN_OPTIONS": "halt_on_error=0:exitcode=66:report_thread_leaks=0:second_deadlock_stack=1:history_size=4"}
 PROGRAMS = {
     "resource": ("harness/drf/stress_resource.cpp", ["src/threading/rwp/Resource.cpp"]),
@@ -38,11 +38,11 @@ PROGRAMS = {
 }
 MIX_TEXT = {
     "resource": {0: "80% ReadLock / 20% WriteLock", 1: "raw lockRead/unlockRead/lockWrite/unlockWrite 50/50", 2: "writers only",
-                 3: "readers only", 4: "95/5 on two resources"},
+                 3: "readers only", 4: "95/5 on two resources, a third of the read sections of resource 1 nested inside a read section of resource 0"},
     "pool": {0: "balanced start/clear/update/stop/getters/sleep", 1: "start-heavy, no stop", 2: "stop/start cycles (+setters on the empty pool)",
              3: "expiry-heavy (1 ms timeout, sleeps, update)"},
     "router": {0: "balanced six operations", 1: "notify-heavy", 2: "subscribe/unsubscribe/shrink-heavy", 3: "read-only operations",
-               4: "balanced, int payload"},
+               4: "balanced, int payload", 5: "balanced, half of the notifies bridged through a second router"},
 }
 RUN_TIMEOUT = {"quick": 20, "thorough": 90}
 
@@ -255,7 +255,7 @@ def plan(tier, rng):
     for mix in (0, 1, 2, 3):
         for th in ((2, 6) if q else (1, 2, 4, 8)):
             cfgs.append(("pool", th, 4000 if q else 12000, mix))
-    for mix in (0, 1, 2, 3, 4):
+    for mix in (0, 1, 2, 3, 4, 5):
         for th in ((4, 8) if q else (4, 5, 6, 7, 8)):
             cfgs.append(("router", th, 4000 if q else 12000, mix))
     seeds = 2 if q else 5
